@@ -11,7 +11,7 @@ from collections import Counter
 
 import numpy as np
 
-from .. import gen, observe, parsers
+from .. import gen, history, observe, parsers
 from ..engine import raise_site, violation
 from ..rng import Stream
 
@@ -175,6 +175,19 @@ def gen_spec(seed, index, tier):
         st["pyseed"] = ops.u32()
         st["npseed"] = ops.u32()
     spec["steps"] = steps
+    # a fifth of the runs export a polyhedron *with history*: mutators before and
+    # between the exports (after each one the oracle re-reads the shape's geometry)
+    if base.get("placement") in ("generic", "signed_perm") and ops.chance(0.2):
+        try:
+            obj = gen.build(base)
+            ext = history.extent(obj)
+            if 0.3 <= ext <= 300 and float(np.max(np.abs(obj.vertices))) < 2500:
+                for m in history.gen_steps(ops.sub("mut"), obj, ops.randint(1, 3),
+                                           ext_range=(0.3, 300.0)):
+                    pos = ops.randint(0, len(spec["steps"]))
+                    spec["steps"].insert(pos, {"op": "mutate", "fmt": "-", "m": m})
+        except Exception:  # noqa: BLE001
+            pass
     return spec
 
 
@@ -200,8 +213,10 @@ def _base_ok(base):
 def sample(spec):
     return {"base": {k: spec["base"][k] for k in ("cls", "family", "placement") if k in spec["base"]},
             "n_vertices": len(spec["base"]["vertices"]), "cfg": spec["cfg"],
-            "steps": [{k: s[k] for k in ("op", "fmt", "via", "path", "pathkind", "fs_faults",
-                                         "heal") if k in s} for s in spec["steps"]]}
+            "steps": [({k: s[k] for k in ("op", "fmt", "via", "path", "pathkind", "fs_faults",
+                                          "heal") if k in s} if s["op"] != "mutate" else
+                       {"op": "mutate", "m": {k: s["m"][k] for k in ("op", "prop", "name", "arg")
+                                              if k in s["m"]}}) for s in spec["steps"]]}
 
 
 # --------------------------------------------------------------------------
@@ -362,6 +377,26 @@ def execute(spec, world):
     for si, st in enumerate(spec["steps"]):
         C["steps"] += 1
         fmt = st["fmt"]
+        if st["op"] == "mutate":
+            r = history.apply(shape, st["m"], world)
+            C["mutations_between_exports_" + r["outcome"]] += 1
+            log.add("mutate", si, st["m"].get("prop") or st["m"].get("name"), r["outcome"])
+            try:
+                verts = np.array(shape.vertices, copy=True)
+                faces = [[int(i) for i in f] for f in shape.faces]
+                usable = bool(np.all(np.isfinite(verts))) and _base_ok(
+                    {"vertices": verts.tolist(), "faces": faces})
+            except Exception:  # noqa: BLE001
+                usable = False
+            if not usable:
+                C["state_after_mutation_not_exportable"] += 1
+                break
+            light0 = _light_state(shape)
+            probes = observe.build_probes(shape.vertices)
+            if full:
+                with world.step(1, 1, use_fs=False):
+                    snap0 = observe.snapshot(shape, probes)
+            continue
         path = _mk_path(st["path"], st.get("pathkind", "str"))
         rel = st["path"]
         before_bytes = bytes(world.fs.files[rel]) if rel in world.fs.files else None
@@ -561,7 +596,7 @@ def simplify(spec):
                 yield c
     cur = [i for i, b in enumerate(LADDER) if spec["base"].get("vertices") == b["vertices"]
            and spec["base"]["cls"] == b["cls"]]
-    for i, b in enumerate(LADDER):
+    for i, b in enumerate(LADDER if not any(x["op"] == "mutate" for x in spec["steps"]) else []):
         if not cur or i < cur[0]:
             c = copy.deepcopy(spec)
             c["base"] = dict(b, placement="ladder")
